@@ -4,6 +4,9 @@ from vlib.unit import Builder, Target, VERIF, scan_assumes
 from vlib.runner import Proof
 from vlib import ctx
 from vlib.configure import REPO
+from vlib import astx
+from vlib.cxx2c import Unsupported, apply_splices
+import hashlib, re
 from profile import profile, L07
 
 SRC = 'src/client/QXmppOutgoingClient.cpp'
@@ -16,10 +19,67 @@ def rd(name):
     return open(os.path.join(HERE, name)).read()
 
 
-HAVOC_GHOST = '''  g_wid = nondet_qstr(); gh_completions = nondet_int(); gh_started = nondet_bool(); gh_others_completed = nondet_int();
+HAVOC_GHOST = '''  gh_it_others = nondet_long(); gh_it_w = nondet_bool();
+  gh_sent = nondet_int(); gh_cont_registered = nondet_int(); gh_cont_id = nondet_qstr();
+  g_wid = nondet_qstr(); gh_completions = nondet_int(); gh_started = nondet_bool(); gh_others_completed = nondet_int();
   gh_value.kind = nondet_int(); gh_value.el = nondet_int(); gh_value.err.description = nondet_qstr(); gh_value.err.error.kind = nondet_int(); gh_value.err.error.val = nondet_int();
   gh_other.first = nondet_qstr(); gh_other.second.jid = nondet_qstr(); gh_other.second.interface.gh_is_w = nondet_bool(); gh_other.second.interface.finished = nondet_bool();
 '''
+
+
+def lower_lambda(b, prof, method, sig, ordinal, cname, spec):
+    """lower the body of the `ordinal`-th lambda of OutgoingIqManager::<method> as a C function of its own:
+    `this` capture -> self, by-copy captures of outer parameters -> extra parameters (same names)"""
+    src = os.path.join(REPO, SRC)
+    d = astx.find_function(src, CLS + '::' + method, method, None, sig)
+    lams = []
+
+    def visit(n):
+        if isinstance(n, dict):
+            if n.get('kind') == 'LambdaExpr':
+                lams.append(n)
+                return
+            for c in n.get('inner', []):
+                visit(c)
+    visit(d)
+    if len(lams) <= ordinal:
+        raise Unsupported('%s has %d lambdas, continuation #%d not found' % (method, len(lams), ordinal))
+    lam = lams[ordinal]
+    rec = lam['inner'][0]
+    ops = [c for c in rec.get('inner', []) if c.get('kind') == 'CXXMethodDecl' and c.get('name') == 'operator()']
+    if len(ops) != 1:
+        raise Unsupported('lambda without a single operator()')
+    lw = L07(ops[0], cname, prof, this_type=CLS)
+    lw.source_files = [src]
+    extra = []
+    for c in lam['inner'][1:-1]:
+        c0 = lw.skip(c)
+        if c0.get('kind') == 'CXXThisExpr':
+            continue
+        while c0.get('kind') == 'CXXConstructExpr' and len(c0.get('inner', [])) == 1:
+            c0 = lw.skip(c0['inner'][0])
+        if c0.get('kind') != 'DeclRefExpr' or c0['referencedDecl'].get('kind') != 'ParmVarDecl':
+            raise Unsupported('lambda capture that is not `this` or a copy of a parameter')
+        rdl = c0['referencedDecl']
+        ct = lw.ctype(rdl['type']['qualType'])
+        lw.locals[rdl['id']] = (rdl['name'], ct, False)
+        lw.names.add(rdl['name'])
+        extra.append('%s %s' % (ct, rdl['name']))
+    text = lw.lower(extra)
+    # the closure object is const, the captured `this` is not
+    text = text.replace('const %s *self' % CLS, '%s *self' % CLS, 1)
+    for k, v in lw.fired.items():
+        b.fired[k] = b.fired.get(k, 0) + v
+    for dr in lw.dropped:
+        b.dropped.append(dict(dr, function=cname))
+    for et, names in lw.need_enums.items():
+        b.need_enums.setdefault((src, ()), {}).setdefault(et, set()).update(names)
+    text = apply_splices(text, spec.contract, spec.loops)
+    text = re.sub(r'/\*@(CONTRACT|LOOP\d+)@\*/\n?', '', text)
+    bl, el = astx.src_range(lam)
+    b.functions.append({'function': '%s::%s::<lambda #%d>' % (CLS, method, ordinal), 'cname': cname, 'file': SRC, 'lines': [bl, el], 'ast_hash': astx.node_hash(lam),
+                        'lowered_c_sha': hashlib.sha256(text.encode()).hexdigest()[:16], 'loops': lw.loops, 'rules_fired': len(lw.fired), 'calls_dropped': len(lw.dropped)})
+    return text
 
 
 def build(work, tier):
@@ -37,6 +97,22 @@ def build(work, tier):
     for m in ('handleStanza', 'hasId', 'isIdValid', 'start', 'finish', 'cancelAll', 'onSessionOpened', 'onSessionClosed'):
         lower(m, 'OutgoingIqManager_' + m, m + '.spec')
 
+    M = 'OutgoingIqManager_'
+    sp = b.spec('sendIq_onSent.spec')
+    lowered[M + 'sendIq_onSent'] = (sp, lower_lambda(b, prof, 'sendIq', 'QXmppPacket', 0, M + 'sendIq_onSent', sp))
+    lower('sendIq', M + 'sendIq_packet', 'sendIq_packet.spec', sig='QXmppPacket')
+    lower('sendIq', M + 'sendIq_iq', 'sendIq_iq.spec', sig='QXmppIq')
+
+    # the same real body once more, under the contract "exactly-once survives continuations that start new requests" (finding C07-F1)
+    sp_re = b.spec('cancelAll_reentrant.spec')
+    txt_re = b.lower(Target(SRC, CLS + '::cancelAll', 'cancelAll', M + 'cancelAll', this=CLS, parent=None, lowerer_cls=L07), sp_re)
+    b.functions.pop()   # already listed
+
+    CL = 'QXmppOutgoingClient'
+    for nm, mth, specf in ((CL + '_sendIq', 'sendIq', 'client_sendIq.spec'), (CL + '_dtor', '~' + CL, 'client_dtor.spec')):
+        sp = b.spec(specf)
+        lowered[nm] = (sp, b.lower(Target(SRC, CL + '::' + mth, mth, nm, this=CL, parent=None, lowerer_cls=L07), sp))
+
     rec, fields = ctx.emit_record(os.path.join(REPO, SRC), CLS, CLS, CLS, prof, opaque_ok=True)
     if 'm_requests' not in fields:
         raise Exception('OutgoingIqManager has no member m_requests')
@@ -44,16 +120,23 @@ def build(work, tier):
     for st in ('SessionBegin', 'SessionEnd'):
         r_, f_ = ctx.emit_record(os.path.join(REPO, SRC), st, st, st, prof, opaque_ok=True)
         recs += r_ + '\n'
+    recs += 'typedef struct %s %s;\n' % (CL, CL)
+    for st in (CL + 'Private', CL):
+        r_, f_ = ctx.emit_record(os.path.join(REPO, SRC), st, st, st, prof, opaque_ok=True)
+        if st == CL + 'Private' and not {'iqManager', 'streamAckManager'} <= set(f_):
+            raise Unsupported('QXmppOutgoingClientPrivate lost iqManager / streamAckManager')
+        recs += r_ + '\n'
     model = b.subst(rd('model.h'))
     defs = b.subst(rd('specdefs.h'))
-    head = '#include "opaque.h"\n' + prof.literal_ids.table() + b.context() + '\n' + model + recs + defs
+    head = '#include "opaque.h"\n' + prof.literal_ids.table() + b.context() + '\n' + model + b.subst(rd('model_send.h')) + recs + defs
+    then_model = b.prototype(lowered[M + 'sendIq_onSent'][1]) + rd('model_then.h')
 
-    def proof(cname, harness_args, decls, replace=(), kind='complete', **kw):
+    def proof(cname, harness_args, decls, replace=(), kind='complete', pre='', **kw):
         sp, txt = lowered[cname]
-        protos = ''.join(b.prototype(lowered[r][1]) for r in replace)
+        protos = ''.join(b.prototype(lowered[r][1]) for r in replace if r in lowered and (r != M + 'sendIq_onSent' or not pre)) + pre
         c = head + protos + txt + '\nvoid h_%s(void) {\n%s  %s\n  %s(%s);\n}\n' % (cname, HAVOC_GHOST, decls, cname, harness_args)
         f = b.write(cname + '.c', c)
-        p = Proof(cname, f, 'h_' + cname, enforce=cname, replace=list(replace), kind=kind, include_dirs=[QT], timeout=600,
+        p = Proof(cname, f, 'h_' + cname, enforce=cname, replace=list(replace), kind=kind, include_dirs=[QT], timeout=600, object_bits=8,
                   loop_contracts=(kind == 'contract'), **kw)
         p.labels = {'post': {cname: sp.labels}, 'inv': {cname: sp.inv_labels.get(0, [])}}
         p.expect_post = len(sp.labels)
@@ -62,7 +145,6 @@ def build(work, tier):
 
     proof('OutgoingIqManager_handleStanza', 'self, stanza', 'OutgoingIqManager *self; qdom stanza;',
           note='loop-free; every element, every sender/id/type string (opaque), table seen through an arbitrary witness id')
-    M = 'OutgoingIqManager_'
     proof(M + 'hasId', 'self, id', 'const OutgoingIqManager *self; qstr id;', note='loop-free')
     proof(M + 'isIdValid', 'self, id', 'const OutgoingIqManager *self; qstr id;', replace=[M + 'hasId'], note='loop-free; hasId by contract')
     proof(M + 'start', 'self, _ret, id, to', 'OutgoingIqManager *self; qtask *_ret; qstr id; qstr to;', replace=[M + 'isIdValid'], note='loop-free; isIdValid by contract')
@@ -71,12 +153,66 @@ def build(work, tier):
           note='table of any size: the loop over all pending requests is closed by a loop contract (witness visited at an arbitrary position)')
     proof(M + 'onSessionOpened', 'self, session', 'OutgoingIqManager *self; const SessionBegin *session;', replace=[M + 'cancelAll'], note='loop-free; cancelAll by contract')
     proof(M + 'onSessionClosed', 'self, session', 'OutgoingIqManager *self; const SessionEnd *session;', replace=[M + 'cancelAll'], note='loop-free; cancelAll by contract')
+    proof(M + 'sendIq_onSent', 'self, result, id', 'OutgoingIqManager *self; SendResult *result; qstr id;', replace=[M + 'finish'],
+          note='continuation attached to the send task in sendIq(QXmppPacket&&, id, to); finish by contract')
+    proof(M + 'sendIq_packet', 'self, _ret, packet, id, to', 'OutgoingIqManager *self; qtask *_ret; QXmppPacket *packet; qstr id; qstr to;',
+          replace=[M + 'start', M + 'sendIq_onSent'], pre=then_model, defines=[],
+          note='loop-free; start and the send continuation by contract; the continuation may run at once (send already failed)')
+    proof(M + 'sendIq_iq', 'self, _ret, iq, to', 'OutgoingIqManager *self; qtask *_ret; QXmppIq *iq; qstr to;', replace=[M + 'hasId', M + 'sendIq_packet'],
+          note='loop-free; hasId and sendIq(QXmppPacket&&, id, to) by contract')
+    proof(CL + '_sendIq', 'self, _ret, iq', 'QXmppOutgoingClient *self; qtask *_ret; QXmppIq *iq; gh_cfg_jidBare = nondet_qstr();', replace=[M + 'sendIq_iq'],
+          note='loop-free; OutgoingIqManager::sendIq(QXmppIq&&, to) by contract; own bare JID is an arbitrary (possibly empty) string')
+    proof(CL + '_dtor', 'self', 'QXmppOutgoingClient *self;', replace=[M + 'cancelAll', 'StreamAckManager_resetCache'], pre=rd('model_reset.h'),
+          note='loop-free; cancelAll by (verified) contract, StreamAckManager::resetCache by an assumed contract')
+    # ---------------------------------------------------------------- finding C07-F1: re-entrant continuations during cancelAll
+    for variant, define in (('excluded', 'FINDING_EXCLUDED'), ('only', 'FINDING_ONLY')):
+        c = head + b.prototype(lowered[M + 'start'][1]) + rd('model_reenter.h') + txt_re + '\nvoid h_cancelAll_reentrant(void) {\n%s  OutgoingIqManager *self; gh_reentrant = nondet_bool(); gh_iqm_reenter = self;\n  %scancelAll(self);\n}\n' % (HAVOC_GHOST, M)
+        f = b.write('cancelAll_reentrant_%s.c' % variant, c)
+        p = Proof('cancelAll_reentrant_' + variant, f, 'h_cancelAll_reentrant', enforce=M + 'cancelAll', replace=[M + 'start'], kind='contract', expect_loops=1,
+                  include_dirs=[QT], timeout=600, object_bits=8, defines=['REENTRANT_CONTINUATIONS', define],
+                  note='cancelAll under the exactly-once invariant with continuations modelled as callbacks that may start a request; '
+                       + ('continuations that do so excluded by precondition' if variant == 'excluded' else 'restricted to continuations that do so (finding C07-F1)'))
+        p.labels = {'post': {M + 'cancelAll': sp_re.labels}, 'inv': {M + 'cancelAll': sp_re.inv_labels.get(0, [])}}
+        p.expect_post = len(sp_re.labels)
+        if variant == 'only':
+            p.finding = 'C07-F1'
+        proofs.append(p)
+    # ---------------------------------------------------------------- lemma: exactly-once invariant, from the contracts alone
+    ops = [M + m for m in ('start', 'finish', 'handleStanza', 'cancelAll', 'onSessionOpened', 'onSessionClosed', 'hasId', 'isIdValid', 'sendIq_onSent', 'sendIq_packet', 'sendIq_iq')]
+    lem = b.subst(rd('lemma.h'))
+    f = b.write('lemma.c', head + ''.join(b.prototype(lowered[o][1]) for o in ops) + lem)
+    p = Proof('lemma_exactly_once', f, 'h_lemma', enforce=None, replace=ops, kind='complete', include_dirs=[QT], timeout=600, object_bits=9, loop_contracts=False,
+              note='inductive invariant over the contracts of all table operations (bodies replaced by contracts): base case + one arbitrary step')
+    p.labels = {}
+    p.expect_post = lem.count('"[lemma.')
+    proofs.append(p)
+    if tier == 'thorough':
+        # second SAT back end (CBMC's built-in minisat) on the central contracts and the lemma
+        import copy
+        for q in [q for q in proofs if q.id in (M + 'handleStanza', M + 'start', M + 'cancelAll', 'lemma_exactly_once')]:
+            q2 = copy.copy(q)
+            q2.id = q.id + '_minisat'
+            q2.solver = []
+            q2.result = None
+            q2.note = q.note + ' (cross-check with the built-in minisat back end)'
+            proofs.append(q2)
     return {
         'proofs': proofs, 'functions': b.functions, 'dropped': b.dropped, 'fired': b.fired, 'hooks': [],
-        'assumed': ['A-UMAP witness-key view of std::unordered_map<QString, IqState> (units/C07/model.h)',
-                    'A-PROMISE QXmppPromise<IqResult>::finish completes the task once per call; task() is a handle on the same state (QXmppPromise itself is C13)',
+        'assumed': ['A-UMAP witness-key view of std::unordered_map<QString, IqState>: find/emplace/erase/clear/iteration have their container meaning on one arbitrary key, other keys unconstrained (units/C07/model.h)',
+                    'A-PROMISE QXmppPromise<IqResult>::finish completes the task once per call (ghost counter for the promise registered under the witness id); task() is a handle on the same state; makeReadyTask is a finished task (QXmppPromise/QXmppTask are C13)',
                     'A-DOM abstract DOM, opaque-string axioms: equality only (qtmodel/opaque.h)',
-                    'QXmppIq::parse / errorOptional: whether an <error/> was parsed and its value are functions of the element (parser not verified here)'],
-        'assumes': scan_assumes(rd('model.h') + open(os.path.join(QT, 'opaque.h')).read()),
-        'not_covered': [],
+                    'QXmppIq::parse / errorOptional / id / to / setId: whether an <error/> was parsed and its value are functions of the element; getters/setters of plain fields (parser not verified here)',
+                    'A-SEND StreamAckManager::send hands exactly that packet to the stream and returns a task that is finished already or later (C09); A-THEN QXmppTask::then runs the continuation at once iff the task is already finished (C13) (units/C07/model_send.h)',
+                    'A-RESETCACHE StreamAckManager::resetCache only runs send continuations (assumed contract in units/C07/model_reset.h; used by the destructor proof only)',
+                    'QXmppConfiguration::jidBare() is a pure getter of the configured own bare JID; QXmppUtils::generateStanzaUuid() returns some non-empty string',
+                    'continuations attached to request tasks do not call back into the table while cancelAll() runs -- assumed by the lemma and by the contracts of cancelAll / onSessionOpened / onSessionClosed / ~QXmppOutgoingClient; the complementary case is finding C07-F1 (proofs cancelAll_reentrant_*)',
+                    'logging (warning()) dropped by the lowering after a purity check of its arguments'],
+        'assumes': scan_assumes(rd('model.h') + rd('model_send.h') + rd('model_reenter.h') + rd('lemma.h') + open(os.path.join(QT, 'opaque.h')).read()),
+        'not_covered': ['the typed continuation chain chainIq/chain in src/base/QXmppFutureUtils_p.h (deep templates) and the QXmppClient::sendIq / sendSensitiveIq / sendGenericIq wrappers',
+                        'per-manager pending maps of multi-stanza requests (MAM, PubSub, Discovery), including the MAM + encryption non-completion named in the property',
+                        'the send-error path inside StreamAckManager (C09); only its effect through the continuation attached in sendIq is verified',
+                        'iterator invalidation by rehash when a continuation inserts a request during handleStanza / finish (m_requests.erase(itr) after promise.finish); no observable failure on libstdc++, not modelled',
+                        'liveness of the network: a request with no qualifying reply and no session end stays pending (by design of the property)',
+                        'Qt 6 branches, BUILD_OMEMO / E2EE decryption of IQ responses'],
+        'explanation': 'Witness-key view: every contract is stated for one arbitrary request id g_wid chosen by the harness and never assigned; since it is arbitrary the facts hold for all ids, and "requests with other ids are untouched" is the same fact read from the other side.',
     }
